@@ -137,8 +137,9 @@ def _aad(fn: ast.FunctionDef) -> tuple[bytes, bytes, bytes, bytes, bytes | None]
 # ------------------------------------------------------------------------------------------ cache get / put
 
 
-def _get(fn: ast.FunctionDef) -> tuple[str, bool]:
-    """`get`: the operator of `if expires_at <op> now:` and whether the rest has the known shape."""
+def _get(fn: ast.FunctionDef) -> tuple[str, bool, bool]:
+    """`get`: the operator of `if expires_at <op> now:`, whether the rest has the known shape, and whether a hit re-stores
+    the entry with `now + ttl` (sliding expiry) before `move_to_end`."""
     op = None
     for n in ast.walk(fn):
         if isinstance(n, ast.If) and isinstance(n.test, ast.Compare) and ast.unparse(n.test.left) == "expires_at":
@@ -155,9 +156,11 @@ def _get(fn: ast.FunctionDef) -> tuple[str, bool]:
         and with_body[:1] == ["entry = self._entries.get(key)"]
         and with_body[1:2] == ["if entry is None:\n    return None"]
         and with_body[2:3] == ["expires_at, resolved = entry"]
-        and with_body[4:] == ["self._entries.move_to_end(key)", "return resolved"]
+        and with_body[4:] in (["self._entries.move_to_end(key)", "return resolved"],
+                              ["self._entries[key] = (now + self._ttl, resolved)", "self._entries.move_to_end(key)", "return resolved"])
     )
-    return op, ok
+    refreshes = ok and len(with_body) == 7
+    return op, ok, refreshes
 
 
 def _put(fn: ast.FunctionDef) -> bool:
@@ -357,7 +360,7 @@ def emit() -> dict[str, str]:
     call = _aad(_func(st, "_compute_call_aad"))
     same_tail = cur[1:4] == call[1:4] and cur[4] is None
     binds_method = call[4] is not None
-    get_op, get_ok = _get(_func(st, "get", "_CallStateCache"))
+    get_op, get_ok, get_refreshes = _get(_func(st, "get", "_CallStateCache"))
     put_ok = _put(_func(st, "put", "_CallStateCache"))
     open_call_name = "_open_call_token_dated" if any(
         isinstance(n, ast.FunctionDef) and n.name == "_open_call_token_dated" for n in ast.walk(st)) else "_open_call_token"
@@ -438,13 +441,16 @@ structure Shape where
   hitChecksType : Bool
   /-- the hit branch rejects `resolved.method != method_name` (what the call token's AAD enforces on a miss) -/
   hitChecksMethod : Bool
+  /-- `get` re-stores a hit with `now + self._ttl` (sliding expiry) instead of leaving the entry's expiry alone -/
+  hitRefreshes : Bool
 deriving DecidableEq, Repr
 
-def shape : Shape := {{ initAnchor := {sites["initAnchor"]}, missAnchor := {sites["missAnchor"]}, hitChecksType := {b(sites["hitChecksType"])}, hitChecksMethod := {b(sites["hitChecksMethod"])} }}
+def shape : Shape := {{ initAnchor := {sites["initAnchor"]}, missAnchor := {sites["missAnchor"]}, hitChecksType := {b(sites["hitChecksType"])}, hitChecksMethod := {b(sites["hitChecksMethod"])}, hitRefreshes := {b(get_refreshes)} }}
 
 /-! control flow recognised by AST pattern (required to be `true` by Proofs/C14.lean) -/
 
-/-- `get`: key = (call_id, identity) ; miss → None ; dead → `del` + None ; else `move_to_end` + value -/
+/-- `get`: key = (call_id, identity) ; miss → None ; dead → `del` + None ; else [re-store with `now + ttl` iff
+    `shape.hitRefreshes`] `move_to_end` + value -/
 def getRecognised : Bool := {b(get_ok)}
 /-- `put`: `entries[key] = (now + ttl, resolved)` ; `move_to_end(key)` ; `while len > max: popitem(last=False)` -/
 def putRecognised : Bool := {b(put_ok)}
